@@ -5,7 +5,10 @@
 //   ops: {"o":"send","n":N} {"o":"enable"} {"o":"disable"} {"o":"disconnect"}
 //        {"o":"pread","n":N} {"o":"pwrite","n":N} {"o":"pshut"} {"o":"pclose"}
 //        {"o":"pass","c":C,"w":"recv|complete|close","in":[ops]}   one loop pass; the receive callback consumes
-//                         min(C,len) bytes (C<0: all); ops in "in" are executed from inside the first callback of kind w
+//                         min(C,len) bytes (C<0: all); ops in "in" are executed from inside the next callback of kind w
+//                         (in this pass or, if none fires now, whenever it fires later - also during settle)
+//        {"o":"hook","w":"recv|complete|close","in":[ops],"times":T}   the same for the next T callbacks of kind w
+//                         (e.g. chunked streaming: on every send-complete, send the next chunk)
 //        {"o":"settle"}   let the loop run and the peer read until nothing moves any more
 // The object under test lives on a real event loop which is driven pass by pass from inside (a runNext task that
 // executes script ops up to the next "pass" and re-posts itself), so nothing depends on wall-clock time.
@@ -25,6 +28,7 @@
 #include <netinet/in.h>
 #include <arpa/inet.h>
 #include <fstream>
+#include <map>
 #include <memory>
 #include <nlohmann/json.hpp>
 #include <tbox/event/loop.h>
@@ -108,7 +112,8 @@ ssize_t __wrap_recvmsg(int fd, struct msghdr *m, int fl) { OBSV("R", __real_recv
 [[noreturn]] static void infra(const std::string &why) { fprintf(stderr, "INFRA: %s\n", why.c_str()); vh::T().flush(); _exit(3); }
 
 // ---------------------------------------------------------------- one execution ------------------------------
-struct PassCtx { long long c = -1; std::string w; json in; bool used = true; };
+struct PassCtx { long long c = -1; };
+struct Hook { json in; int times = 0; };      // "on the next <times> callbacks of this kind, make these calls from inside the callback"
 
 struct Exec {
     std::string t; bool tcp = false, server = false, local = false;
@@ -122,6 +127,7 @@ struct Exec {
     // driver-side mirror, used only to steer waiting in settle (never to decide anything)
     long long sent = 0, pgot = 0, pwrote = 0; bool running = false, gone = false, pclosed = false, peer_eof = false, closerep = false;
     PassCtx pc;
+    std::map<std::string, Hook> hooks;       // kind ("recv" | "complete" | "close") -> pending in-callback calls; survives passes and settle
 };
 
 static event::Loop *g_loop = nullptr;
@@ -138,9 +144,12 @@ static long g_waited_total = 0;
 static void set_nb(int fd) { int f = fcntl(fd, F_GETFL, 0); fcntl(fd, F_SETFL, f | O_NONBLOCK); }
 static void exec_op(const json &op, bool in_cb);
 static void run_in_ops(const char *kind) {
-    if (!X || X->pc.used || X->pc.w != kind) return;
-    X->pc.used = true;
-    for (auto &o : X->pc.in) exec_op(o, true);
+    if (!X) return;
+    auto it = X->hooks.find(kind);
+    if (it == X->hooks.end() || it->second.times <= 0) return;
+    --it->second.times;
+    json ops = it->second.in;                // copy: an op may install another hook
+    for (auto &o : ops) exec_op(o, true);
 }
 
 // ---- user callbacks -------------------------------------------------------------------------------------------
@@ -153,7 +162,7 @@ static void on_recv(Buffer &b) {
     b.hasRead((size_t)c);
     ev("{\"e\":\"RecvRet\",\"c\":" + std::to_string(c) + "}");
 }
-static void on_complete() { ev("{\"e\":\"Complete\"}"); run_in_ops("complete"); }
+static void on_complete() { ev("{\"e\":\"Complete\"}"); run_in_ops("complete"); ev("{\"e\":\"CompleteRet\"}"); }
 static void raw_disable(bool log);
 static void on_close(const char *kind, int err) {
     X->closerep = true;
@@ -161,6 +170,7 @@ static void on_close(const char *kind, int err) {
     ev(std::string("{\"e\":\"Close\",\"kind\":\"") + kind + "\",\"err\":" + std::to_string(err) + "}");
     if (!X->tcp) raw_disable(true);      // convention of every user in the repository (TcpConnection): stop watching a closed stream
     run_in_ops("close");
+    ev("{\"e\":\"CloseRet\"}");
 }
 
 // ---- operations -------------------------------------------------------------------------------------------------
@@ -244,6 +254,7 @@ static void exec_op(const json &op, bool in_cb) {
         ev(std::string("{\"e\":\"Disconnect\",\"ret\":") + (r ? "true" : "false") + "}");
     } else if (o == "pread") peer_read(op["n"].get<long long>(), false);
     else if (o == "pwrite") peer_write(op["n"].get<long long>());
+    else if (o == "hook") { Hook h; h.in = op["in"]; h.times = op.value("times", 1); X->hooks[op["w"].get<std::string>()] = h; }
     else if (o == "pshut") peer_shut(false);
     else if (o == "pclose") peer_shut(true);
     else if (in_cb) infra("op not allowed inside a callback: " + o);
@@ -388,8 +399,8 @@ static void step() {
             const json &op = X->ops[X->cursor++];
             const std::string o = op["o"].get<std::string>();
             if (o == "pass") {
-                X->pc = PassCtx(); X->pc.c = op.value("c", -1LL); X->pc.w = op.value("w", std::string());
-                if (op.contains("in")) { X->pc.in = op["in"]; X->pc.used = X->pc.in.empty(); }
+                X->pc = PassCtx(); X->pc.c = op.value("c", -1LL);
+                if (op.contains("in") && !op["in"].empty()) { Hook h; h.in = op["in"]; h.times = 1; X->hooks[op.value("w", std::string("recv"))] = h; }
                 g_loop->runNext(step); return;
             }
             if (o == "settle") { g_phase = P_SETTLE; g_idle = 0; g_waited = 0; g_lastev = -1; g_settling = true; X->pc = PassCtx(); continue; }
